@@ -158,6 +158,12 @@ impl<T> CompactArena<T> {
     /// Caller must ensure id is valid and allocated
     pub unsafe fn get_unchecked(&self, id: NodeId) -> &T {
         let index = id as usize;
+        #[cfg(kentbeck_bplustree3_verif)]
+        assert!(
+            index < self.storage.len() && self.allocated_mask.get(index).copied().unwrap_or(false),
+            "VERIF-HOOK: get_unchecked({}) on a slot that is not allocated",
+            id
+        );
         self.storage.get_unchecked(index)
     }
 
@@ -167,6 +173,12 @@ impl<T> CompactArena<T> {
     /// Caller must ensure id is valid and allocated
     pub unsafe fn get_unchecked_mut(&mut self, id: NodeId) -> &mut T {
         let index = id as usize;
+        #[cfg(kentbeck_bplustree3_verif)]
+        assert!(
+            index < self.storage.len() && self.allocated_mask.get(index).copied().unwrap_or(false),
+            "VERIF-HOOK: get_unchecked_mut({}) on a slot that is not allocated",
+            id
+        );
         self.storage.get_unchecked_mut(index)
     }
 
@@ -287,6 +299,14 @@ impl<T> CompactArena<T> {
 impl<T> Default for CompactArena<T> {
     fn default() -> Self {
         Self::new()
+    }
+}
+
+#[cfg(kentbeck_bplustree3_verif)]
+impl<T> CompactArena<T> {
+    /// Verification hook: the private fields, read-only.
+    pub(crate) fn verif_raw_parts(&self) -> (&[T], &[bool], &[usize]) {
+        (&self.storage, &self.allocated_mask, &self.free_list)
     }
 }
 
